@@ -219,3 +219,12 @@ func zeroOf(sort string) string {
 	}
 	return bvLitI(0, sortWidth(sort))
 }
+
+// inRange is lo <= x < hi for 64-bit offsets.  Offsets and lengths are below
+// 2^48 (maxLen), so lo+len never wraps and the two comparisons are exact.
+func inRange(x, lo, hi string) string {
+	if lo == "(_ bv0 64)" {
+		return "(bvult " + x + " " + hi + ")"
+	}
+	return "(and (bvule " + lo + " " + x + ") (bvult " + x + " " + hi + "))"
+}
